@@ -265,3 +265,6 @@ def run(ctx):
     why = "a second graph build in the same process answers exists() from the first build's snapshot, so a vanished source file is accepted (or a new one still rejected)"
     rule_per_instance_state(ctx, r5, ["gwf.core:CachedFilesystem", "gwf.core:Graph"], why)
     rule_fresh_per_call(ctx, r5, "gwf.core:CachedFilesystem", why)
+    # ... and against the targets' files as they are now (targets are mutable; a rebuilt graph must see an added input or output)
+    from .c01 import rule_flatten
+    rule_flatten(ctx, r5)
